@@ -38,13 +38,24 @@ MUTANTS = [
     ("emaa-decay", E, "        residual *= beta\n        residual_weights *= beta\n\n    return out", "        residual *= beta\n\n    return out", None, "_ema_adjusted", "denominator not decayed"),
     ("cf-tracker", FZ, None, None, None, "_combine_factorizations", None),
     ("rap-count", N, "            count = counts[i]", "            count = counts[0]", None, "reduce_array_pair", "count of another group passed to the reducer"),
+    ("rap-ycount", N, "        if y_counts is not None and y_counts[i] == 0:\n", "        if y_counts is not None and y_counts[i] < 0:\n", None, "reduce_array_pair[generic,counts=array,y_counts=array", "empty right partials are merged as data"),
+    ("comb-nocount", N, "            counts=combined_count if isinstance(combined_count, np.ndarray) else None,\n", "", None, "combine_chunk_results_for_factorized_key", "merge without the accumulated count (the pinned defect)"),
+    ("comb-noycount", N, "            y_counts=count if isinstance(count, np.ndarray) else None,\n", "", None, "combine_chunk_results_for_factorized_key", "merge without the per-chunk count (bool/unsigned defect)"),
+    ("comb-count", N, "        combined_count = combined_count + count\n", "        combined_count = combined_count + counts[0]\n", None, "combine_chunk_results_for_factorized_key", "wrong count accumulated"),
     ("sf-nanmin", N, "            if next_val < cur_min:\n                cur_min = next_val", "            if next_val > cur_min:\n                cur_min = next_val", None, "ScalarFuncs.nanmin", "comparison flipped"),
     ("sf-first", N, "        elif count:\n            return cur_first, count + 1", "        elif count:\n            return next_val, count + 1", None, "ScalarFuncs.first", "first replaced by last"),
     ("ema-guard", E, "        if k < 0:\n            out[i] = np.nan\n            continue\n        if np.isnan(x) or (masked and not mask[i]):", "        if np.isnan(x) or (masked and not mask[i]):", None, "_ema_grouped[", "null-key rows update the last group"),
     ("ema-decay", E, None, None, None, "_ema_grouped[", None),
     ("sort-off1", CO, "                    indexer[pos] = i\n", "                    indexer[pos] = i + 1\n", None, "_build_group_sorted_indexer_numba", "positions shifted by one"),
     ("momp-ge", N, "        if want_max and v >= best or (not want_max and v <= best):", "        if want_max and v <= best or (not want_max and v <= best):", None, "min_or_max_and_position[float,want_max=True]", "max computed as min"),
-    ("nbr-start", NO, None, None, None, "_nb_reduce", None),
+    ("nbr-start", NO, "            start = loc + 1\n", "            start = loc\n", None, "_nb_reduce[float,skipna,no", "first non-null element folded twice"),
+    ("nbr-skip", NO, "            if is_null(x):\n                continue\n            out = reduce_func(out, x)", "            out = reduce_func(out, x)", None, "_nb_reduce[float,skipna,initial", "nulls not skipped"),
+    ("gfnn-not", U, "        if not is_null(x):\n            return i, x\n    return -1, np.nan", "        if is_null(x):\n            return i, x\n    return -1, np.nan", None, "_get_first_non_null[float]", "returns the first null"),
+    ("dot-transpose", U, "            out[row] += a[col][row] * b[col]", "            out[row] += a[col][row] * b[row]", None, "_nb_dot", "wrong vector element"),
+    ("dot-race", U, "            out[row] += a[col][row] * b[col]", "            out[col] += a[col][row] * b[col]", None, "_nb_dot", "iterations write each other's slots"),
+    ("nro-min", U, "        return x if x <= y else y", "        return x if x >= y else y", None, "NumbaReductionOps.min", "min is max"),
+    ("gnm-guard", N, "        if key < 0:\n            # null group key: belongs to no group and must not touch group state\n            continue\n", "", None, "group_nearby_members", "null-key rows update the last group"),
+    ("isnull-neg", U, "        out[i] = is_null(arr[i])", "        out[i] = not is_null(arr[i])", None, "arr_is_null", "inverted"),
 ]
 
 
